@@ -15,6 +15,7 @@ import (
 	"os"
 	"os/exec"
 	"sort"
+	"strconv"
 	"strings"
 	"syscall"
 	"time"
@@ -85,7 +86,7 @@ func (e *Exec) build64(s iset, rcp string) *roaring64.Bitmap {
 	if len(rcp) > 0 {
 		base = rcp[0]
 	}
-	if !s.smallerThan(300000) {
+	if !s.smallerThan(300000) && base != 'W' {
 		base = 'R'
 	}
 	switch base {
@@ -102,6 +103,44 @@ func (e *Exec) build64(s iset, rcp string) *roaring64.Bitmap {
 		default:
 			for _, v := range vs {
 				rb.Add(v)
+			}
+		}
+	case 'W': // the buckets' 32-bit bitmaps are built first and wrapped (Roaring32AsRoaring64: "no copy is made"); the rest is added
+		var low []span
+		for _, sp := range s {
+			if sp.lo <= 0xFFFFFFFF {
+				hi := sp.hi
+				if hi > 0xFFFFFFFF {
+					hi = 0xFFFFFFFF
+				}
+				low = append(low, span{sp.lo, hi})
+			}
+		}
+		if len(low) > 0 { // an empty 32-bit bitmap would make an empty bucket: outside what the constructor is documented for
+			b32 := roaring.New()
+			for _, sp := range low {
+				b32.AddRange(sp.lo, sp.hi+1)
+			}
+			if e.rng.Intn(2) == 0 {
+				b32.RunOptimize()
+			}
+			rb = roaring64.Roaring32AsRoaring64(b32)
+		}
+		for _, sp := range s {
+			if sp.hi <= 0xFFFFFFFF {
+				continue
+			}
+			lo := sp.lo
+			if lo <= 0xFFFFFFFF {
+				lo = 1 << 32
+			}
+			if sp.hi == ^uint64(0) {
+				if lo < sp.hi {
+					rb.AddRange(lo, sp.hi)
+				}
+				rb.Add(sp.hi)
+			} else {
+				rb.AddRange(lo, sp.hi+1)
 			}
 		}
 	default:
@@ -140,7 +179,7 @@ func (e *Exec) build64(s iset, rcp string) *roaring64.Bitmap {
 	return rb
 }
 
-var recipes64 = []string{"R", "R", "Ro", "M", "m", "A", "a", "B", "Rc", "Rk", "Mo", "Mc", "Rr", "Mk"}
+var recipes64 = []string{"R", "R", "Ro", "M", "m", "A", "a", "B", "Rc", "Rk", "Mo", "Mc", "Rr", "Mk", "W", "Wc", "Wo"}
 
 func (e *Exec) rep64(s int) SlotRep {
 	rb := e.slots64[s]
@@ -442,6 +481,51 @@ func (e *Exec) do64(c *Call, ev *Event) (targets []int) {
 		ev.Aux = ok
 		ev.Arr = e.projArr(normalize(sp), ev)
 		ev.Ret = numFromU64(uint64(len(arr)))
+	case "Stats": // roaring64.Stats sums the per-bucket statistics: counts and values must add up to the bitmap
+		st := e.bm64(c.X).Stats()
+		nk := [3]int{}
+		hasrun := false
+		for _, b := range roaring64.VerifBuckets(e.bm64(c.X)) {
+			if b.Inner == nil {
+				continue
+			}
+			for _, ch := range view32(b.Inner, nil).Chunks {
+				if ch.T >= 0 && ch.T <= 2 {
+					nk[ch.T]++
+				}
+			}
+		}
+		hasrun = e.bm64(c.X).HasRunCompression()
+		ev.Ret = map[string]any{"card": numFromU64(st.Cardinality), "containers": int(st.Containers),
+			"kinds":     []int{int(st.ArrayContainers), int(st.BitmapContainers), int(st.RunContainers)},
+			"values":    numFromU64(st.ArrayContainerValues + st.BitmapContainerValues + st.RunContainerValues),
+			"viewkinds": []int{nk[0], nk[1], nk[2]}, "hasrun": hasrun}
+	case "String": // String() lists the elements in increasing order as {a,b,c} (truncated after 0x40000 values)
+		x := e.bm64(c.X)
+		set, _ := view64(x)
+		if !set.smallerThan(200000) {
+			ev.Skip = true
+			return nil
+		}
+		str := x.String()
+		ok := len(str) >= 2 && str[0] == '{' && str[len(str)-1] == '}'
+		var sp []span
+		if ok && len(str) > 2 {
+			first := true
+			var prev uint64
+			for _, f := range strings.Split(str[1:len(str)-1], ",") {
+				v, err := strconv.ParseUint(f, 10, 64)
+				if err != nil || (!first && v <= prev) {
+					ok = false
+					break
+				}
+				first, prev = false, v
+				sp = append(sp, span{v, v})
+			}
+		}
+		ev.Aux = ok
+		ev.Arr = e.projArr(normalize(sp), ev)
+		ev.Ret = numFromU64(uint64(len(sp)))
 	default:
 		if e.doIter(c, ev) {
 			return nil
